@@ -192,4 +192,36 @@ theorem unit_product_value_reachable (hR : Reachable s.reg) (hcache : s.reg.opCa
     intro op u' v' f' w' hm; rw [hcache] at hm; simp at hm
   exact (mulUnits_sound s ν hA (reachable_dirInv hR).termMapSound hC u v).1 f w h
 
+/-! ### a unit and a plain number -/
+
+section UnitNum
+variable {d : Rounding}
+
+/-- **`k * unit` is the quantity `k unit`**, in the unit's own type; rounded once
+to the unit's grid if the type has a quantum (the unit stands for itself, not
+for a rounded `1 unit`) -/
+theorem number_times_unit (u : Nat) (k : ℚ) :
+    (s.reg.unitQuantum u = none → s.unitTimesNum d u k = .ok (.qty ⟨k, u⟩)) ∧
+    (∀ qu, s.reg.unitQuantum u = some qu → qu ≠ 0 →
+      s.unitTimesNum d u k = .ok (.qty ⟨(roundQ d (k / qu) : ℚ) * qu, u⟩)) := by
+  constructor
+  · intro hq
+    unfold QState.unitTimesNum RegState.mkQty RegState.mkQty.go
+    simp only [hq]
+    rfl
+  · intro qu hq hne
+    have := mkQty_quantum (s := s.reg) (d := d) (c := s.reg.unitCls u) (a := k) (u := u) rfl hq hne
+    unfold QState.unitTimesNum
+    unfold RegState.mkQty at this ⊢
+    simp only [bne_self_eq_false, Bool.false_eq_true, ↓reduceIte] at this
+    simp only [this, Except.map]
+
+/-- `unit / k` is `1/k unit`; `unit / 0` raises ZeroDivisionError -/
+theorem unit_div_number (u : Nat) (k : ℚ) :
+    (k = 0 → s.unitDivNum d u k = .error .ZeroDivisionError) ∧
+    (k ≠ 0 → s.unitDivNum d u k = s.unitTimesNum d u (1 / k)) := by
+  constructor <;> intro h <;> unfold QState.unitDivNum <;> simp [h, QState.unitTimesNum]
+
+end UnitNum
+
 end QM.Props.C02
